@@ -205,6 +205,39 @@ pub fn run(ctx: &Ctx) -> Result<()> {
 			let _ = (m, d);
 		}
 	}
+	// (6) vector_layers against the Coq model (Model/VectorLayers.v): two documents that carry layer lists only are merged
+	{
+		use versatiles_core::tilejson::TileJSON;
+		let hexs = |s: &str| -> String { if s.is_empty() { "".into() } else { hex(s.as_bytes()) } };
+		let gen = |rng: &mut Rng| -> String {
+			let mut ids: Vec<&str> = vec!["a", "b", "roads", "ü", "water", "ab"]; let mut out = Vec::new();
+			for _ in 0..rng.below(4) { let k = rng.below(ids.len() as u64) as usize; let id = ids.remove(k);
+				let mut keys: Vec<&str> = vec!["x", "y", "name", "k", "ÿ"]; let mut fs = Vec::new();
+				for _ in 0..rng.below(4) { let j = rng.below(keys.len() as u64) as usize; let key = keys.remove(j); fs.push(format!("{}:{}", jstr(key), jstr(*rng.pick(&["String", "Number", "Boolean", ""])))); }
+				let mut o = vec![format!("\"id\":{}", jstr(id)), format!("\"fields\":{{{}}}", fs.join(","))];
+				if rng.chance(1, 2) { o.push(format!("\"description\":{}", jstr(*rng.pick(&["d", "desc ü", ""])))); }
+				if rng.chance(1, 2) { o.push(format!("\"minzoom\":{}", rng.below(31))); } if rng.chance(1, 2) { o.push(format!("\"maxzoom\":{}", rng.below(31))); }
+				out.push(format!("{{{}}}", o.join(","))); }
+			format!("{{\"vector_layers\":[{}]}}", out.join(","))
+		};
+		let show = |t: &TileJSON| -> String {
+			let v: Vec<String> = t.vector_layers.0.iter().map(|(id, l)| format!("{}/{}/{}/{}/{}", hexs(id),
+				if l.fields.is_empty() { "-".to_string() } else { l.fields.iter().map(|(k, v)| format!("{}={}", hexs(k), hexs(v))).collect::<Vec<_>>().join(",") },
+				l.description.as_ref().map_or("-".to_string(), |d| format!("S{}", hexs(d))), l.minzoom.map_or("-".to_string(), |z| z.to_string()), l.maxzoom.map_or("-".to_string(), |z| z.to_string()))).collect();
+			if v.is_empty() { "-".to_string() } else { v.join("&") }
+		};
+		let mut done = 0;
+		while done < (if ctx.thorough { 3000 } else { 400 }) {
+			let (ta, tb) = (gen(&mut rng), gen(&mut rng));
+			let (Ok(a), Ok(b)) = (TileJSON::try_from(ta.as_str()), TileJSON::try_from(tb.as_str())) else { continue };
+			done += 1; col.spec_cases += 1;
+			let a2 = if done % 5 == 0 { TileJSON::default() } else { a };
+			let txt = match guarded(|| { let mut m = a2.clone(); m.merge(&b).map(|_| m) }) { Ok(Ok(m)) => show(&m), Ok(Err(_)) => "err".into(), Err(_) => "panic".into() };
+			col.out.line(&format!("tj.vl {} {} => {txt}", show(&a2), show(&b)));
+			// merged into the default document: the layers come back as they are
+			if done % 5 == 0 && txt != show(&b) { col.violation("vector-layers-into-default", &tb, &tb, &format!("merged into TileJSON::default(): {txt}, given {}", show(&b))); }
+		}
+	}
 	crate::formats::run_meta(ctx, &mut col)?;
 	col.finish()
 }
